@@ -335,4 +335,356 @@ theorem regWF_rebuild (su : Setup) (hs : SetupWF su) (w : World) (reg : Registry
           subst hci; exact hs _ _
       · cases hr
 
+
+/-- removing a holder cannot fail: the group is found, the entity is found in it, and the closing events can be built -/
+theorem remove_total (reg : Registry) (t : Tick) (c e : Nat) (hwf : ShapeWF (shape reg)) (hreg : RegWF reg)
+    (hmem : memS (shape reg) c e) : (reg.remove t c e).isSome := by
+  have hget := (get_iff_memS reg hwf c e).mpr hmem
+  unfold Registry.get at hget
+  unfold Registry.remove
+  cases hi : reg.index c with
+  | none => simp [hi] at hget
+  | some gi =>
+    simp only [hi] at hget ⊢
+    cases hg : reg[gi]? with
+    | none => simp [hg] at hget
+    | some g =>
+      simp only [hg] at hget ⊢
+      have hgm : g ∈ reg := List.mem_of_getElem? hg
+      cases g with
+      | exclusive ty is =>
+        simp only [Option.isSome_map] at hget
+        obtain ⟨p, hp⟩ := Option.isSome_iff_exists.mp hget
+        have hpm := List.mem_of_find?_eq_some hp
+        have hpe := List.find?_some hp
+        have hlt : is.findIdx (fun p => p.1 == e) < is.length := List.findIdx_lt_length_of_exists ⟨p, hpm, hpe⟩
+        simp only
+        rw [List.getElem?_eq_getElem hlt]
+        simp only
+        have hctx : CtxWF (is[is.findIdx (fun p => p.1 == e)]).2 :=
+          hreg _ hgm _ (by simp only [Group.instances, List.mem_map]; exact ⟨_, List.getElem_mem hlt, rfl⟩)
+        obtain ⟨dl, hdl⟩ := Option.isSome_iff_exists.mp (triggerRemoved_total _ t [e] hctx)
+        simp only [hdl]
+        split <;> rfl
+      | shared ty es ctx =>
+        simp only at hget
+        have hmem' : e ∈ es := by simpa using hget
+        have hlt : es.findIdx (fun x => x == e) < es.length := List.findIdx_lt_length_of_exists ⟨e, hmem', by simp⟩
+        simp only [hlt, if_true]
+        have hctx : CtxWF ctx := hreg _ hgm ctx (by simp [Group.instances])
+        obtain ⟨dl, hdl⟩ := Option.isSome_iff_exists.mp (triggerRemoved_total ctx t [e] hctx)
+        simp only [hdl]
+        split <;> rfl
+
+theorem rebuildExclusive_total (mk : Factory) (t : Tick) (c : Nat) :
+    ∀ (is : List (Nat × ContextInstance)), (∀ p ∈ is, CtxWF p.2) → (Registry.rebuildExclusive mk t c is).isSome := by
+  intro is
+  induction is with
+  | nil => intro _; rfl
+  | cons p ps ih =>
+    intro h
+    obtain ⟨e, ctx⟩ := p
+    obtain ⟨dl, hdl⟩ := Option.isSome_iff_exists.mp (triggerRemoved_total ctx t [e] (h (e, ctx) (by simp)))
+    obtain ⟨x, hx⟩ := Option.isSome_iff_exists.mp (ih (fun q hq => h q (by simp [hq])))
+    simp [Registry.rebuildExclusive, hdl, hx]
+
+theorem rebuild_total (reg : Registry) (mk : Factory) (t : Tick) (c : Nat) (hwf : ShapeWF (shape reg)) (hreg : RegWF reg) :
+    (reg.rebuild mk t c).isSome := by
+  unfold Registry.rebuild
+  cases hi : reg.index c with
+  | none => rfl
+  | some gi =>
+    obtain ⟨g, hg, _⟩ := index_spec reg c gi hi
+    have hgm : g ∈ reg := List.mem_of_getElem? hg
+    simp only [hg]
+    cases g with
+    | exclusive ty is =>
+      have : ∀ p ∈ is, CtxWF p.2 := fun p hp =>
+        hreg _ hgm p.2 (by simp only [Group.instances, List.mem_map]; exact ⟨p, hp, rfl⟩)
+      obtain ⟨x, hx⟩ := Option.isSome_iff_exists.mp (rebuildExclusive_total mk t c is this)
+      simp [hx]
+    | shared ty es ctx =>
+      have hctx : CtxWF ctx := hreg _ hgm ctx (by simp [Group.instances])
+      obtain ⟨dl, hdl⟩ := Option.isSome_iff_exists.mp (triggerRemoved_total ctx t es hctx)
+      have hne : es ≠ [] := hwf.nonempty (ty, es) (by simp only [shape, List.mem_map]; exact ⟨_, hgm, rfl⟩)
+      cases es with
+      | nil => exact absurd rfl hne
+      | cons e0 rest => simp [hdl]
+
+
+theorem removeComps_good (t : Tick) (e : Nat) : ∀ (cs : List Nat) (reg reg' : Registry) (dl : List Delivery),
+    RegWF reg → removeComps t e cs reg = some (reg', dl) → RegWF reg' := by
+  intro cs
+  induction cs with
+  | nil => intro reg reg' dl h hr; simp [removeComps] at hr; rw [← hr.1]; exact h
+  | cons c cs ih =>
+    intro reg reg' dl h hr
+    simp only [removeComps] at hr
+    split at hr
+    · cases hr
+    · rename_i reg1 dl1 h1
+      split at hr
+      · cases hr
+      · rename_i reg2 dl2 h2
+        simp only [Option.some.injEq, Prod.mk.injEq] at hr
+        rw [← hr.1]
+        exact ih _ _ _ (regWF_remove _ _ _ _ _ _ h h1) h2
+
+theorem rebuildAll_good (su : Setup) (hs : SetupWF su) (w : World) (t : Tick) :
+    ∀ (tysl : List CtxType) (reg reg' : Registry) (dl : List Delivery),
+      RegWF reg → rebuildAll (su.factory w) t tysl reg = some (reg', dl) → RegWF reg' := by
+  intro tysl
+  induction tysl with
+  | nil => intro reg reg' dl h hr; simp [rebuildAll] at hr; rw [← hr.1]; exact h
+  | cons ty rest ih =>
+    intro reg reg' dl h hr
+    simp only [rebuildAll] at hr
+    split at hr
+    · cases hr
+    · rename_i reg1 dl1 h1
+      split at hr
+      · cases hr
+      · rename_i reg2 dl2 h2
+        simp only [Option.some.injEq, Prod.mk.injEq] at hr
+        rw [← hr.1]
+        exact ih _ _ _ (regWF_rebuild su hs w _ _ _ _ _ h h1) h2
+
+theorem filter_sorted (cs : List (Nat × Nat)) (p : Nat × Nat → Bool) (h : (cs.map (·.1)).Pairwise (· < ·)) :
+    ((cs.filter p).map (·.1)).Pairwise (· < ·) :=
+  List.Pairwise.sublist (List.Sublist.map _ List.filter_sublist) h
+
+/-- the combined invariant is preserved by every lifecycle operation and by the per-frame update -/
+theorem good_appPred (su : Setup) (hs : SetupWF su) : AppPred su Good where
+  op := by
+    intro st o st' dl h hop
+    have hm := (mirror_appPred su).op st o st' dl h.mirror hop
+    refine ⟨hm, ?_, ?_⟩
+    · -- instances stay well formed
+      cases o with
+      | spawn e => simp only [applyOp] at hop; split at hop <;> (simp only [Option.some.injEq, Prod.mk.injEq] at hop; rw [← hop.1]; exact h.regwf)
+      | insert e c v =>
+        simp only [applyOp] at hop
+        split at hop
+        · simp only [Option.some.injEq, Prod.mk.injEq] at hop; rw [← hop.1]; exact h.regwf
+        · split at hop
+          · simp only [Option.some.injEq, Prod.mk.injEq] at hop; rw [← hop.1]; exact h.regwf
+          · split at hop
+            · simp only [Option.some.injEq, Prod.mk.injEq] at hop; rw [← hop.1]; exact h.regwf
+            · simp only [Option.some.injEq, Prod.mk.injEq] at hop; rw [← hop.1]; exact regWF_add su hs _ _ _ _ h.regwf
+      | remove e c =>
+        simp only [applyOp] at hop
+        split at hop
+        · simp only [Option.some.injEq, Prod.mk.injEq] at hop; rw [← hop.1]; exact h.regwf
+        · split at hop
+          · cases hop
+          · rename_i reg' dl' hr
+            simp only [Option.some.injEq, Prod.mk.injEq] at hop; rw [← hop.1]
+            exact regWF_remove _ _ _ _ _ _ h.regwf hr
+      | despawn e =>
+        simp only [applyOp] at hop
+        split at hop
+        · simp only [Option.some.injEq, Prod.mk.injEq] at hop; rw [← hop.1]; exact h.regwf
+        · split at hop
+          · cases hop
+          · rename_i reg' dl' hr
+            simp only [Option.some.injEq, Prod.mk.injEq] at hop; rw [← hop.1]
+            exact removeComps_good _ _ _ _ _ _ h.regwf hr
+      | rebuild =>
+        simp only [applyOp] at hop
+        split at hop
+        · cases hop
+        · rename_i reg' dl' hr
+          simp only [Option.some.injEq, Prod.mk.injEq] at hop; rw [← hop.1]
+          exact rebuildAll_good su hs _ _ _ _ _ _ h.regwf hr
+    · -- the world stays well formed
+      have hw := h.world
+      cases o with
+      | spawn e =>
+        simp only [applyOp] at hop
+        split at hop
+        · simp only [Option.some.injEq, Prod.mk.injEq] at hop; rw [← hop.1]; exact hw
+        · rename_i hal
+          simp only [Option.some.injEq, Prod.mk.injEq] at hop; rw [← hop.1]
+          refine ⟨?_, ?_⟩
+          · simp only [List.map_append, List.map_cons, List.map_nil]
+            rw [List.nodup_append]
+            refine ⟨hw.ents, by simp, ?_⟩
+            intro x hx y hy
+            simp only [List.mem_singleton] at hy
+            subst hy
+            intro hxe
+            subst hxe
+            exact hal ((World.alive_iff_mem _ _).mpr hx)
+          · intro p hp
+            rcases List.mem_append.mp hp with hp | hp
+            · exact hw.comps p hp
+            · simp only [List.mem_singleton] at hp; subst hp; simp
+      | insert e c v =>
+        simp only [applyOp] at hop
+        split at hop
+        · simp only [Option.some.injEq, Prod.mk.injEq] at hop; rw [← hop.1]; exact hw
+        · rename_i hal
+          have hal' : st.world.alive e = true := by simpa using hal
+          have hsorted := (insertComp_sorted (st.world.comps e) c v (hw.comps _ (comps_mem _ _ hal' hw.ents))).1
+          split at hop
+          · simp only [Option.some.injEq, Prod.mk.injEq] at hop; rw [← hop.1]; exact hw
+          · split at hop
+            · simp only [Option.some.injEq, Prod.mk.injEq] at hop; rw [← hop.1]
+              exact worldOK_setComps _ _ _ hw hsorted
+            · simp only [Option.some.injEq, Prod.mk.injEq] at hop; rw [← hop.1]
+              exact worldOK_setComps _ _ _ hw hsorted
+      | remove e c =>
+        simp only [applyOp] at hop
+        split at hop
+        · simp only [Option.some.injEq, Prod.mk.injEq] at hop; rw [← hop.1]; exact hw
+        · rename_i hcond
+          split at hop
+          · cases hop
+          · simp only [Option.some.injEq, Prod.mk.injEq] at hop; rw [← hop.1]
+            have hal : st.world.alive e = true := by
+              simp only [Bool.or_eq_true, Bool.not_eq_true', not_or, Bool.not_eq_false] at hcond
+              exact hcond.1
+            exact worldOK_setComps _ _ _ hw (filter_sorted _ _ (hw.comps _ (comps_mem _ _ hal hw.ents)))
+      | despawn e =>
+        simp only [applyOp] at hop
+        split at hop
+        · simp only [Option.some.injEq, Prod.mk.injEq] at hop; rw [← hop.1]; exact hw
+        · split at hop
+          · cases hop
+          · simp only [Option.some.injEq, Prod.mk.injEq] at hop; rw [← hop.1]
+            refine ⟨List.Pairwise.sublist (List.Sublist.map _ List.filter_sublist) hw.ents, ?_⟩
+            intro p hp
+            exact hw.comps p (List.mem_filter.mp hp).1
+      | rebuild =>
+        simp only [applyOp] at hop
+        split at hop
+        · cases hop
+        · simp only [Option.some.injEq, Prod.mk.injEq] at hop; rw [← hop.1]; exact hw
+  update := by
+    intro w reg r t o h hu
+    obtain ⟨o', ho', hwf'⟩ := registry_update_total t reg r h.regwf
+    rw [hu] at ho'
+    cases ho'
+    exact ⟨(mirror_appPred su).update w reg r t o h.mirror hu, hwf', h.world⟩
+
+theorem good_init : Good [] [] where
+  mirror := mirror_init
+  regwf := fun g hg => nomatch hg
+  world := { ents := List.nodup_nil, comps := fun p hp => nomatch hp }
+
+/-- no lifecycle operation can fail on a good state -/
+theorem applyOp_total (su : Setup) (hs : SetupWF su) (st : AppState) (h : Good st.world st.reg) (o : Op) :
+    (applyOp su st o).isSome := by
+  cases o with
+  | spawn e => simp only [applyOp]; split <;> rfl
+  | insert e c v =>
+    simp only [applyOp]
+    split
+    · rfl
+    · split
+      · rfl
+      · split <;> rfl
+  | remove e c =>
+    simp only [applyOp]
+    split
+    · rfl
+    · rename_i hcond
+      have hhas : st.world.has e c = true := by
+        simp only [Bool.or_eq_true, Bool.not_eq_true', not_or, Bool.not_eq_false] at hcond
+        exact hcond.2
+      have hmem := (h.mirror.mirror c e).mpr hhas
+      obtain ⟨x, hx⟩ := Option.isSome_iff_exists.mp (remove_total st.reg st.tick c e h.mirror.wf h.regwf hmem)
+      simp [hx]
+  | despawn e =>
+    simp only [applyOp]
+    split
+    · rfl
+    · rename_i hal
+      have hal' : st.world.alive e = true := by simpa using hal
+      -- removing the entity's components one after the other: each is still held when its turn comes
+      have key : ∀ (cs : List Nat) (reg : Registry), ShapeWF (shape reg) → RegWF reg → cs.Nodup →
+          (∀ c ∈ cs, memS (shape reg) c e) → (removeComps st.tick e cs reg).isSome := by
+        intro cs
+        induction cs with
+        | nil => intro reg _ _ _ _; rfl
+        | cons c cs ih =>
+          intro reg hwf hreg hnd hall
+          obtain ⟨x, hx⟩ := Option.isSome_iff_exists.mp (remove_total reg st.tick c e hwf hreg (hall c (by simp)))
+          obtain ⟨reg1, dl1⟩ := x
+          obtain ⟨hwf1, hm1, _⟩ := remove_shape _ _ _ _ _ _ hx hwf
+          have hreg1 := regWF_remove _ _ _ _ _ _ hreg hx
+          obtain ⟨hcn, hnd'⟩ := List.nodup_cons.mp hnd
+          have hall1 : ∀ c' ∈ cs, memS (shape reg1) c' e := by
+            intro c' hc'
+            rw [hm1]
+            exact ⟨hall c' (by simp [hc']), fun hh => hcn (hh.1 ▸ hc')⟩
+          obtain ⟨y, hy⟩ := Option.isSome_iff_exists.mp (ih reg1 hwf1 hreg1 hnd' hall1)
+          simp [removeComps, hx, hy]
+      have hsorted := h.world.comps _ (comps_mem _ _ hal' h.world.ents)
+      have hnd : ((st.world.comps e).map (·.1)).Nodup := by
+        apply List.Pairwise.imp _ hsorted
+        intro a b hab; exact Nat.ne_of_lt hab
+      have hall : ∀ c ∈ (st.world.comps e).map (·.1), memS (shape st.reg) c e := by
+        intro c hc
+        rw [h.mirror.mirror, World.has_def, List.any_eq_true]
+        obtain ⟨p, hp, rfl⟩ := List.mem_map.mp hc
+        exact ⟨p, hp, by simp⟩
+      obtain ⟨x, hx⟩ := Option.isSome_iff_exists.mp (key _ st.reg h.mirror.wf h.regwf hnd hall)
+      simp [hx]
+  | rebuild =>
+    simp only [applyOp]
+    have key : ∀ (tysl : List CtxType) (reg : Registry), ShapeWF (shape reg) → RegWF reg → SetupWF su →
+        (rebuildAll (su.factory st.world) st.tick tysl reg).isSome := by
+      intro tysl
+      induction tysl with
+      | nil => intro reg _ _ _; rfl
+      | cons ty rest ih =>
+        intro reg hwf hreg hs
+        obtain ⟨x, hx⟩ := Option.isSome_iff_exists.mp (rebuild_total reg (su.factory st.world) st.tick ty.id hwf hreg)
+        obtain ⟨reg1, dl1⟩ := x
+        have hsh := rebuild_shape _ _ _ _ _ _ hx
+        have hreg1 := regWF_rebuild su hs _ _ _ _ _ _ hreg hx
+        obtain ⟨y, hy⟩ := Option.isSome_iff_exists.mp (ih reg1 (by rw [hsh]; exact hwf) hreg1 hs)
+        simp [rebuildAll, hx, hy]
+    obtain ⟨x, hx⟩ := Option.isSome_iff_exists.mp (key su.types st.reg h.mirror.wf h.regwf hs)
+    simp [hx]
+
+/-- the command queue with arbitrary observer reactions cannot fail either -/
+theorem runQueue_total (su : Setup) (hs : SetupWF su) (reacts : Reactions) :
+    ∀ (fuel : Nat) (stack : List QItem) (st : AppState) (k : Nat) (seen : List Delivery),
+      Good st.world st.reg → (runQueue su reacts fuel stack st k seen).isSome := by
+  intro fuel
+  induction fuel with
+  | zero => intro stack st k seen _; rfl
+  | succ n ih =>
+    intro stack st k seen h
+    cases stack with
+    | nil => rfl
+    | cons item rest =>
+      cases item with
+      | deliver d => simp only [runQueue]; exact ih _ _ _ _ h
+      | op o =>
+        obtain ⟨x, hx⟩ := Option.isSome_iff_exists.mp (applyOp_total su hs st h o)
+        obtain ⟨st2, dl⟩ := x
+        simp only [runQueue, hx]
+        exact ih _ _ _ _ ((good_appPred su hs).op st o st2 dl h hx)
+
+/-- a whole frame cannot fail on a good state -/
+theorem frame_total (su : Setup) (hs : SetupWF su) (st : AppState) (raw : RawInput) (t : Tick) (reacts : Reactions)
+    (posts : List Op) (fuel : Nat) (h : Good st.world st.reg) : (frame su st raw t reacts posts fuel).isSome := by
+  unfold frame
+  simp only
+  obtain ⟨o, ho, hwf⟩ := registry_update_total t st.reg (({ raw := raw } : Reader).updateState) h.regwf
+  simp only [ho]
+  have hg1 : Good st.world o.reg := (good_appPred su hs).update st.world st.reg _ t o h ho
+  obtain ⟨x, hx⟩ := Option.isSome_iff_exists.mp
+    (runQueue_total su hs reacts fuel (o.deliveries.map QItem.deliver) { st with tick := t, reg := o.reg } 0 [] hg1)
+  obtain ⟨st1, k1, seen1⟩ := x
+  simp only [hx]
+  have hg2 : Good st1.world st1.reg :=
+    runQueue_pred su Good (good_appPred su hs) reacts _ _ _ _ _ _ _ _ hg1 hx
+  obtain ⟨y, hy⟩ := Option.isSome_iff_exists.mp (runQueue_total su hs reacts fuel (posts.map QItem.op) st1 k1 seen1 hg2)
+  obtain ⟨st2, k2, seen2⟩ := y
+  simp [hy]
+
 end BEI
